@@ -3,6 +3,7 @@ C15 — a panicking operation is contained to its own object.
 -/
 import DesyncModel.Spec
 import DesyncModel.Tables
+import DesyncModel.FactGuard
 
 namespace Desync.C15
 open Desync Gen
